@@ -431,6 +431,10 @@ func c19OwnAuthority() (caPEM, srvCrt, srvKey []byte, creds []c19Cred, err error
 		add("own authority: client-test01", true, "client-test01", false, cn("client-test01"), []string{"client-test01"}, ca, caKey),
 		add("own authority: client-test02", true, "client-test02", false, cn("client-test02"), []string{"client-test02"}, ca, caKey),
 		add("own authority: signer-test02 (a peer)", true, "signer-test02", true, cn("signer-test02"), []string{"signer-test02"}, ca, caKey),
+		// Names that differ from a permitted client's or a peer's only in the case of their letters are other names.
+		add("own authority: Client-Test01 (a permitted client's name in another case)", true, "Client-Test01", false, cn("Client-Test01"), nil, ca, caKey),
+		add("own authority: SIGNER-TEST02 (a peer's name in another case)", true, "SIGNER-TEST02", false, cn("SIGNER-TEST02"), nil, ca, caKey),
+		add("own authority: client-test01 followed by a space", true, "client-test01 ", false, cn("client-test01 "), nil, ca, caKey),
 		add("own authority: subject CN=client-test02 with DNS name client-test01", true, "client-test02", false, cn("client-test02"), []string{"client-test01"}, ca, caKey),
 		add("own authority: subject CN=client-test02 with DNS name signer-test02", true, "client-test02", false, cn("client-test02"), []string{"signer-test02"}, ca, caKey),
 		add("own authority: empty subject CN with DNS name client-test01", true, "", false, pkix.Name{Organization: []string{"x"}}, []string{"client-test01"}, ca, caKey),
